@@ -60,6 +60,10 @@ func dispatch(kind string, args []*Sexp) (out *Sexp) {
 		return runOptProg(args)
 	}
 	switch kind {
+	case "poolabort":
+		return runPoolAbort(args)
+	case "lexenum":
+		return runLexEnum(args)
 	case "compile":
 		return runCompile(args)
 	}
